@@ -243,3 +243,71 @@ def records_for(block_name):
                                       const=fr2(e["const"]), coef0=[fr2(c) for c in e["coef"]], const0=fr2(e["const"])) for e in eqs],
                             resp=[fr2(v) for v in resp], init=[fr2(v) for v in init], names=z_names))
     return out, skipped
+
+
+# ------------------------------------------------------------------------------------------------------------
+# limited blocks: which quantity each limiter watches and which pair of parameters bounds it
+LIM_VALUES = dict(alo=Fr(-5), ahi=Fr(5), lo=Fr(-1), hi=Fr(2), rlo=Fr(-7), rhi=Fr(7))
+LIMITED = {
+    "PIAWHardLimit": dict(u="u", kp="kp", ki="ki", aw_lower="alo", aw_upper="ahi", lower="lo", upper="hi"),
+    "PIDAWHardLimit": dict(u="u", kp="kp", ki="ki", kd="kd", Td="Td", aw_lower="alo", aw_upper="ahi", lower="lo", upper="hi"),
+    "PITrackAW": dict(u="u", kp="kp", ki="ki", ks="ks", lower="lo", upper="hi"),
+    "PIDTrackAW": dict(u="u", kp="kp", ki="ki", kd="kd", Td="Td", ks="ks", lower="lo", upper="hi"),
+    "IntegratorAntiWindup": dict(u="u", T="T", K="K", y0="y0", lower="lo", upper="hi"),
+    "LagAntiWindup": dict(u="u", T="T", K="K", lower="lo", upper="hi"),
+    "LagAWFreeze": dict(u="u", T="T", K="K", lower="lo", upper="hi", freeze="fr"),
+    "LagAntiWindupRate": dict(u="u", T="T", K="K", lower="lo", upper="hi", rate_lower="rlo", rate_upper="rhi"),
+    "LeadLagLimit": dict(u="u", T1="T1", T2="T2", lower="lo", upper="hi"),
+    "GainLimiter": dict(u="u", K="K", R="R", lower="lo", upper="hi"),
+}
+X_LATTICE = [Fr(-6), Fr(-5), Fr(-3), Fr(-1), Fr(0), Fr(1), Fr(2), Fr(3), Fr(5), Fr(6)]
+
+
+def limit_records(block_name):
+    """Flags returned by the block's own limiter objects on a lattice of the watched quantity, with distinct values for
+    every pair of limit parameters."""
+    import numpy as np
+    b = _blocks()
+    from andes.core.common import dummify
+    from andes.core.discrete import Limiter, AntiWindup
+    cls = getattr(b, block_name)
+    objs = {}
+    kwargs = {}
+    for arg, pname in LIMITED[block_name].items():
+        o = dummify(pname)
+        if getattr(o, "tex_name", None) is None:
+            o.tex_name = o.name
+        objs[pname] = o
+        kwargs[arg] = o
+    kwargs["name"] = "B"
+    blk = cls(**kwargs)
+    states, algebs, services, discretes = collect(blk)
+    pts = [(x, e) for x in X_LATTICE for e in (-1, 0, 1)]
+    n = len(pts)
+    for pname, o in objs.items():
+        o.v = np.full(n, float(LIM_VALUES.get(pname, Fr(1))))
+    out = []
+    for dname, d in discretes:
+        if not isinstance(d, Limiter):
+            continue
+        d.u.v = np.array([float(x) for x, _ in pts])
+        st = getattr(d, "state", None)
+        if st is not None:
+            st.v = np.array(d.u.v) if st is d.u else np.zeros(n)
+            st.e = np.array([float(e) for _, e in pts])
+            st.a = np.arange(n)
+        d.list2array(n)
+        d.check_var()
+        if d.has_check_eq:
+            if hasattr(d, "rate_lower"):
+                AntiWindup.check_eq(d, niter=0)     # the bounds part only: rate limits act on the derivative
+            else:
+                d.check_eq(niter=0)
+        short = dname[len(blk.name) + 1:]
+        for k, (x, e) in enumerate(pts):
+            if not isinstance(d, AntiWindup) and e != 0:
+                continue
+            out.append(dict(kind="limit", block=block_name, limiter=short, watched=d.u.name, x=fr2(x), e=e,
+                            p={q: fr2(v) for q, v in LIM_VALUES.items()},
+                            zi=int(d.zi[k]), zl=int(d.zl[k]), zu=int(d.zu[k])))
+    return out
